@@ -28,9 +28,9 @@ CHECKS = {
          "Order between elements closed by one end tag and between several end handlers is not fixed by the property and compared as a multiset.", "4/C05"),
  "C09": ("exploration", "property-based testing: metamorphic (fresh rewriter per prefix vs any schedule) plus a latency reference model over the generator's layout, exhaustive prefix enumeration per input",
          "For every prefix length of every generated input a fresh rewriter given the prefix in one write is the reference: other schedules must have emitted exactly as much; with no handlers the pending bytes must fit R-latency (nothing after complete tokens or in text, '<'..name for an unfinished tag, short look-aheads), with handlers at most the single unfinished token.",
-         "R-latency is derived from reading the tokenizer's look-ahead sequences; open finding C09-foreign-tags-buffered classified by signature.", "4/C09"),
+         "R-latency is derived from reading the tokenizer's look-ahead sequences; open finding C09-foreign-tags-buffered is limited to exactly the foreign tags that request a lexeme (integration-point start tags, <font>, MathML names without a hash).", "4/C09"),
  "C10": ("fault_enumeration", "property-based testing with a swept fault parameter (memory limit) and invariants over the sweep",
-         "Growth-targeted inputs x handler configurations x fixed preallocation x schedules, with the memory limit swept densely: result is Ok or MemoryLimitExceeded, accounted usage (hook) and retained bytes never exceed the limit after a successful call, success is monotone in the limit with identical output, and the failing call is deterministic.",
+         "Growth-targeted inputs x handler configurations x fixed preallocation x schedules, with the memory limit swept densely: result is Ok or MemoryLimitExceeded, accounted usage (hook) and retained bytes never exceed the limit after a successful call, success is monotone in the limit with identical output, the failing call is deterministic, and k open elements under a selector set are only accepted when the limit covers k times the per-element cost measured on the same configuration at 1 and 9 open elements (charging must stay linear).",
          "Uses the _verif_hooks accessor; the tree-builder simulator's namespace stack is outside the limiter (DESIGN section 7).", "4/C10"),
  "C11": ("fault_enumeration", "property-based testing with exhaustive fault injection (every handler invocation index, memory-limit sweep) and a byte-conservation oracle",
          "For every generated (input, schedule, observer/insert-only handler set, bail-out handlers, flags) every handler invocation fails once and the memory limit is swept; at the moment the error returns sink (sentinels removed) + unwritten input must equal the input, bail-out handlers run exactly once in order only for their flag's error kind, and nothing is flushed without the flag.",
@@ -48,7 +48,7 @@ CHECKS = {
          "Generated operation scripts (element, end-tag, comment, text, doctype, document-end edits split between several handlers) x structured documents x 36 encodings x schedules; the sink must equal the reference editor's rendering byte for byte (modified tags compared after re-tokenisation: names, attribute order, raw values, foreign self-closing flag).",
          "R-edit implements the documented placement only; end-dependent operations are asserted only for elements closed by their own end tag; undefined call orders are not generated.", "4/C07"),
  "C08": ("exploration", "property-based testing, round-trip / differential: re-parse of the output by html5ever and by lol-html itself",
-         "Adversarial strings (markup characters, terminators, entities, NUL/CR, non-BMP, unmappable) inserted as Text content, attribute value/name, tag name and comment text at 19 insertion points in Data/RCDATA/RAWTEXT/script/SVG/MathML/comment contexts and 36 encodings: re-parsing the output must give the original token structure plus exactly the inserted item; rejected calls leave the output byte-identical.",
+         "Adversarial strings (markup characters, terminators, entities, NUL/CR, non-BMP, unmappable) inserted as Text content, attribute value/name, tag name and comment text at 19 insertion points in Data/RCDATA/RAWTEXT/script/SVG/MathML/comment contexts, on target tags with 9 attribute-list shapes (empty values, `=`-led names, `/` separators, value-less, duplicates) and in 36 encodings: re-parsing the output must give the original token structure plus exactly the inserted item; rejected calls leave the output byte-identical.",
          "html5ever 0.39 is the re-parser; WHATWG preprocessing applied to expected text; set_tag_name within its documented precondition.", "4/C08"),
  "C13": ("exploration", "property-based testing, differential against encoding_rs one-shot codecs in all 36 encodings",
          "Strings read by handlers (text nodes incl. >1 KiB runs, malformed bytes, characters split by writes; comment text; names; attribute values) must equal the one-shot decode of the bytes at the reported range; inserted content must equal the one-shot encode with numeric references; <meta charset> switches once, right after the declaring tag, for later tokens only; non-ASCII-compatible encodings are refused.",
@@ -74,7 +74,7 @@ def main():
             "thorough_cmd": f"./check {pid} --tier thorough",
             "evidence_file": f"/verif/evidence/{pid}.json",
             "replay_cmd_template": f"./check {pid} --replay {{path}}",
-            "engine": "lolv",
+            "engine": "lolv-capi" if pid == "C17" else "lolv",
             "level_claimed": {"category": cat, "text": text, "design_ref": f"DESIGN.md section {ref}"},
             "level_note": note,
             "technique": tech,
